@@ -1856,3 +1856,113 @@ pub open spec fn ck_off(d: Seq<u8>, o0: int, k: int) -> int
                        "                    && ck_off(old(reader).data(), old(reader).pos(), k) + ck_size(old(reader).data(), ck_off(old(reader).data(), old(reader).pos(), k)) <= old(reader).data().len(),")}},
     ],
 }
+
+
+# ------------------------------------------------------------------------------------------------
+# util.rs (C18, feature `utils`): extrude_border on the real text
+# ------------------------------------------------------------------------------------------------
+UNITS["utils_extrude"] = {
+    "prelude_sections": ["arch", "utils_shims", "utils_spec"],
+    "items": [
+        {"kind": "fn", "file": "util", "name": "extrude_border", "ret": "r", "rules": ["R1", "R6", "R10"],
+         "body_rewrites": [("for src_row in once(0).chain(0..h).chain(once(h - 1)) {", "for src_row in it: border_rows(0, h, h - 1) {")],
+         "requires": ("        image.w() >= 1, image.h() >= 1, image.w() + 2 <= 0xffff_ffff, image.h() + 2 <= 0xffff_ffff,\n"
+                      "        // ASSUMPTION: the input buffer exists in memory (4wh bytes), so sizes derived from it fit usize\n"
+                      "        4 * image.w() * image.h() < 0x4000_0000_0000_0000,"),
+         "ensures": ("        r.w() == image.w() + 2, r.h() == image.h() + 2, r.raw().len() == 4 * (image.w() + 2) * (image.h() + 2),\n"
+                     "        // C18: output pixel (x, y) == input pixel (clamp(x-1, 0, w-1), clamp(y-1, 0, h-1)), byte by byte\n"
+                     "        forall|x: int, y: int, c: int| 0 <= x < image.w() + 2 && 0 <= y < image.h() + 2 && 0 <= c < 4 ==>\n"
+                     "            r.raw()[#[trigger] ((y * (image.w() + 2) + x) * 4 + c)] == image.raw()[(clamp_m1(y, image.h() as int) * image.w() + clamp_m1(x, image.w() as int)) * 4 + c],"),
+         "loops": {1: ("        invariant\n"
+                       "            w == image.w(), h == image.h(), w >= 1, h >= 1, src@ == image.raw(), src@.len() == 4 * w * h, bpp == 4, bpp_w == 4 * w,\n"
+                       "            4 * w * h < 0x4000_0000_0000_0000, w <= 0xffff_ffff, h <= 0xffff_ffff,\n"
+                       "            it.snapshot@.remaining().len() == h + 2,\n"
+                       "            forall|i: int| 0 <= i < h + 2 ==> #[trigger] it.snapshot@.remaining()[i] == bseq(h as int)[i],\n"
+                       "            data@ == ext_rows(src@, w as int, bseq(h as int), it.index@ as int),")},
+         "hints": [("let mut data: Vec<u8> =",
+                    "    assert(4 * (w as int + 2) * (h as int + 2) <= 4 * (w as int) * (h as int) + 0x10_0000_0000) by (nonlinear_arith)\n"
+                    "        requires 1 <= (w as int) <= 0xffff_ffff, 1 <= (h as int) <= 0xffff_ffff;\n"
+                    "    assert(4 * (w as int + 2) <= 0x4_0000_0010);", "before"),
+                   ("let ofs = src_row * bpp * w;",
+                    "        assert(src_row as int == clamp_m1(it.index@ as int, h as int));\n"
+                    "        assert((src_row as int) * 4 <= 0x4_0000_0000);\n"
+                    "        assert(0 <= (src_row as int) * 4 * (w as int) && (src_row as int) * 4 * (w as int) + 4 * (w as int) <= 4 * (w as int) * (h as int)) by (nonlinear_arith)\n"
+                    "            requires 0 <= (src_row as int) < (h as int), (w as int) >= 1;\n"
+                    "        assert((src_row as int) * 4 * (w as int) == ((src_row as int) * 4) * (w as int)) by (nonlinear_arith);", "before"),
+                   ("RgbaImage::from_raw(",
+                    "    proof {\n"
+                    "        let rows = bseq(h as int);\n"
+                    "        lemma_ext_rows_len(src@, w as int, h as int, rows, h as int + 2);\n"
+                    "        assert((h as int + 2) * (4 * (w as int + 2)) == 4 * (w as int + 2) * (h as int + 2)) by (nonlinear_arith);\n"
+                    "        assert forall|x: int, y: int, c: int| 0 <= x < w + 2 && 0 <= y < h + 2 && 0 <= c < 4 implies\n"
+                    "            data@[#[trigger] ((y * (w as int + 2) + x) * 4 + c)] == src@[(clamp_m1(y, h as int) * (w as int) + clamp_m1(x, w as int)) * 4 + c] by {\n"
+                    "            lemma_ext_rows_index(src@, w as int, h as int, rows, h as int + 2, x, y, c);\n"
+                    "        }\n"
+                    "    }", "before")],
+         },
+    ],
+}
+
+
+UNITS["utils_palette"] = {
+    "prelude_sections": ["rgba_only", "intmap"],
+    "items": [
+        {"kind": "struct", "file": "palette", "name": "ColorPaletteEntry", "keep": None},
+        {"kind": "struct", "file": "palette", "name": "ColorPalette", "keep": None},
+        {"kind": "fn", "file": "palette", "name": "red", "impl_of": "ColorPaletteEntry", "ret": "r", "ensures": "        r == self.rgba8@[0],"},
+        {"kind": "fn", "file": "palette", "name": "green", "impl_of": "ColorPaletteEntry", "ret": "r", "ensures": "        r == self.rgba8@[1],"},
+        {"kind": "fn", "file": "palette", "name": "blue", "impl_of": "ColorPaletteEntry", "ret": "r", "ensures": "        r == self.rgba8@[2],"},
+        {"kind": "struct", "file": "util", "name": "PaletteMapper", "keep": None},
+        {"kind": "struct", "file": "util", "name": "MappingOptions", "keep": None},
+        {"kind": "verbatim", "text": """
+/// 24-bit key of an RGB colour
+pub open spec fn pack(r: u8, g: u8, b: u8) -> int { r as int + 256 * (g as int) + 65536 * (b as int) }
+pub open spec fn pack_e(e: ColorPaletteEntry) -> int { pack(e.rgba8@[0], e.rgba8@[1], e.rgba8@[2]) }
+/// what the mapper stores for a palette index: the index itself if it fits a byte, otherwise the failure index
+pub open spec fn idx_col(i: u32, failure: u8) -> u8 { if i < 256 { i as u8 } else { failure } }
+/// some palette entry with colour key m is mapped to `v`
+pub open spec fn src_of(p: Map<u32, ColorPaletteEntry>, m: u32, v: u8, failure: u8, i: u32) -> bool {
+    p.contains_key(i) && pack_e(p[i]) == m as int && v == idx_col(i, failure)
+}
+pub open spec fn seen(rem: Seq<(&u32, &ColorPaletteEntry)>, j: int, m: u32) -> bool { pack_e(*rem[j].1) == m as int }
+"""},
+        {"kind": "fn", "file": "util", "name": "new", "key": "PaletteMapper::new", "impl_of": "PaletteMapper", "ret": "r",
+         "body_rewrites": [("for (idx, entry) in palette.entries.iter() {", "for (idx, entry) in it: palette.entries.iter() {")],
+         "ensures": ("        r.failure == options.failure, r.transparent == (match options.transparent { Some(t) => t, None => options.failure }),\n"
+                     "        // a colour key is mapped iff some palette entry has that colour, and then to (the byte of) the index of such an entry\n"
+                     "        forall|m: u32| #[trigger] r.map@.contains_key(m) <==> exists|i: u32| palette.entries@.contains_key(i) && pack_e(#[trigger] palette.entries@[i]) == m as int,\n"
+                     "        forall|m: u32| r.map@.contains_key(m) ==> exists|i: u32| #[trigger] src_of(palette.entries@, m, r.map@[m], options.failure, i),"),
+         "loops": {1: ("            invariant\n"
+                       "                enumerates_ref(it.snapshot@.remaining(), palette.entries@),\n"
+                       "                forall|j: int| 0 <= j < it.index@ ==> map@.contains_key(pack_e(*(#[trigger] it.snapshot@.remaining()[j]).1) as u32),\n"
+                       "                forall|m: u32| map@.contains_key(m) ==> exists|i: u32| #[trigger] src_of(palette.entries@, m, map@[m], options.failure, i),")},
+         "hints": [("let m =",
+                    "            proof {\n"
+                    "                let (a, b, c) = (entry.rgba8@[0], entry.rgba8@[1], entry.rgba8@[2]);\n"
+                    "                assert(((b as u32) << 8) == 256 * (b as u32) && ((c as u32) << 16) == 65536 * (c as u32)) by (bit_vector);\n"
+                    "            }", "before"),
+                   ("let col = if",
+                    "            assert(m as int == pack_e(*entry));\n"
+                    "            assert(palette.entries@.contains_key(*idx) && palette.entries@[*idx] == *entry);", "before"),
+                   ("let _ = map.insert(m, col);",
+                    "            assert(src_of(palette.entries@, m, col, options.failure, *idx));\n"
+                    "            let ghost old_map = map@;", "before")],
+         "loop_ends": {1: ("            proof {\n"
+                           "                assert forall|mm: u32| map@.contains_key(mm) implies exists|i: u32| #[trigger] src_of(palette.entries@, mm, map@[mm], options.failure, i) by {\n"
+                           "                    if mm == m {\n"
+                           "                        assert(src_of(palette.entries@, mm, map@[mm], options.failure, *idx));\n"
+                           "                    } else {\n"
+                           "                        assert(old_map.contains_key(mm) && old_map[mm] == map@[mm]);\n"
+                           "                        let i = choose|i: u32| #[trigger] src_of(palette.entries@, mm, old_map[mm], options.failure, i);\n"
+                           "                        assert(src_of(palette.entries@, mm, map@[mm], options.failure, i));\n"
+                           "                    }\n"
+                           "                }\n"
+                           "            }")},
+         },
+        {"kind": "fn", "file": "util", "name": "lookup", "key": "PaletteMapper::lookup", "impl_of": "PaletteMapper", "ret": "res",
+         "ensures": ("        alpha != 255 ==> res == self.transparent,\n"
+                     "        alpha == 255 ==> res == (if self.map@.contains_key(pack(r, g, b) as u32) { self.map@[pack(r, g, b) as u32] } else { self.failure }),"),
+         "hints": [("let m =",
+                    "        assert(((g as u32) << 8) == 256 * (g as u32) && ((b as u32) << 16) == 65536 * (b as u32)) by (bit_vector);", "before")]},
+    ],
+}
